@@ -112,10 +112,18 @@ MsgTests == {[MkCase("FamBuiltin", "testmsg", P1(<<SCall(ECallB("test", <<Num(1)
 
 \* printf / sprintf
 F_v == <<37, 118>>
+FmtVals == {Num(1), ENum(Fin(5, 2)), ENum(Fin(1, 3)), ENum(Fin(3, 3)), EUn("-", ENum(Fin(5, 1))), EStr(<<97, 34, 98>>), EBool(TRUE),
+            EArr(<<Num(1), EStr(<<120>>)>>), EMap(<<<<107>>>>, <<Num(1)>>), EStr(<<97, 98, 99, 100>>), EStr(<<228, 246>>), Num(1234), EStr(<<>>)}
+FmtFlags == {<<>>, <<45>>, <<48>>}
+FmtWidths == IF Tier = "quick" THEN {<<>>, <<55>>} ELSE {<<>>, <<49>>, <<55>>, <<49, 50>>}
+FmtPrecs == IF Tier = "quick" THEN {<<>>, <<46, 50>>, <<46>>} ELSE {<<>>, <<46>>, <<46, 48>>, <<46, 49>>, <<46, 50>>, <<46, 51>>}
+FmtVerbs == {118, 115, 113, 116, 102}
 FmtProgs ==
-  {P1(<<SCall(ECallB("printf", <<EStr(<<91>> \o f \o <<93, 10>>), v>>))>>) :
-      f \in {<<37, 118>>, <<37, 115>>, <<37, 113>>, <<37, 116>>, <<37, 46, 50, 102>>, <<37, 46, 48, 102>>, <<37, 46, 49, 102>>},
-      v \in {Num(1), ENum(Fin(5, 2)), ENum(Fin(1, 3)), ENum(Fin(3, 3)), EUn("-", ENum(Fin(5, 1))), EStr(<<97, 34, 98>>), EBool(TRUE), EArr(<<Num(1), EStr(<<120>>)>>), EMap(<<<<107>>>>, <<Num(1)>>)}}
+  {P1(<<SCall(ECallB("printf", <<EStr(<<91, 37>> \o fl \o w \o pr \o <<vb, 93, 10>>), v>>))>>) :
+      fl \in FmtFlags, w \in FmtWidths, pr \in FmtPrecs, vb \in FmtVerbs, v \in FmtVals}
+  \* several specifiers in one format, text between them, sprintf
+  \cup {ShowR("sprintf", <<EStr(<<37>> \o a \o <<118, 124, 37>> \o b \o <<115, 124, 37>> \o c \o <<102, 33>>), Num(7), EStr(<<120, 121>>), ENum(Fin(5, 2))>>) :
+           a \in {<<>>, <<51>>, <<45, 51>>}, b \in {<<>>, <<52>>, <<45, 52>>, <<46, 49>>}, c \in {<<46, 49>>, <<48, 54, 46, 49>>, <<54, 46>>}}
   \cup {ShowR("sprintf", <<EStr(<<49, 48, 48, 37, 37, 32, 37, 118, 45, 37, 118>>), Num(1), EStr(<<120>>)>>),
         ShowR("sprintf", <<EStr(<<110, 111, 32, 118, 101, 114, 98>>)>>),
         P1(<<SCall(ECallB("printf", <<Num(5)>>))>>),
